@@ -30,21 +30,84 @@ type opt struct {
 	plugin string
 	name   int
 	typ    int
+	arity  int
 }
 
-// decorate picks the reserved names (not used as call names) and the split into files.
-func decorate(r *rand.Rand, c *Case, calls []CallSpec, prefixes []string) {
+// hintOf: the name fragment newName derives from a first argument of this type.
+func hintOf(t TypeSpec) string {
+	if strings.ContainsAny(t.Go, "*[]( ") {
+		return ""
+	}
+	return t.Go
+}
+
+// candidates: the first names newName tries after the bare prefix, for a first argument type with this hint.
+func candidates(p, hint string) []string {
+	out := []string{p + "_"}
+	rs := []rune(hint)
+	for i := 1; i <= len(rs); i++ {
+		out = append(out, p+"_"+string(rs[:i]))
+	}
+	for i := len(rs) + 1; i <= len(rs)+3; i++ {
+		out = append(out, fmt.Sprintf("%s_%s%d", p, hint, i))
+	}
+	return out
+}
+
+var reservedForms = []string{"func", "var", "type"}
+
+// decorate picks the reserved names (identifiers the user declares and calls elsewhere, as a function, a
+// func-typed variable or a type used in a conversion; never names of derive calls) and the split into
+// files. When the package has a conflict, the reserved names are, two times out of three, exactly the
+// next candidates newName will try for the conflicting call.
+func decorate(r *rand.Rand, c *Case, calls []CallSpec, prefixOf map[string]string) {
 	used := map[string]bool{}
 	for _, cl := range calls {
 		used[cl.Name] = true
 	}
-	switch r.Intn(3) {
-	case 0:
-	default:
-		for _, p := range prefixes {
+	add := func(n string) {
+		if used[n] {
+			return
+		}
+		used[n] = true
+		c.Reserved = append(c.Reserved, n)
+		c.ReservedForm = append(c.ReservedForm, reservedForms[r.Intn(3)])
+	}
+	// conflicting later calls
+	var targets []CallSpec
+	for j := range calls {
+		for i := 0; i < j; i++ {
+			if calls[i].Plugin == calls[j].Plugin && calls[i].Name == calls[j].Name &&
+				(calls[i].Type != calls[j].Type || calls[i].Arity != calls[j].Arity) {
+				targets = append(targets, calls[j])
+				break
+			}
+		}
+	}
+	switch x := r.Intn(3); {
+	case len(targets) > 0 && x > 0:
+		t := targets[r.Intn(len(targets))]
+		cs := candidates(prefixOf[t.Plugin], hintOf(c.Types[t.Type]))
+		k := 1 + r.Intn(3)
+		for _, n := range cs {
+			if k == 0 {
+				break
+			}
+			if !used[n] {
+				add(n)
+				k--
+			}
+		}
+	case x > 0:
+		ps := make([]string, 0, len(prefixOf))
+		for _, p := range prefixOf {
+			ps = append(ps, p)
+		}
+		sort.Strings(ps)
+		for _, p := range ps {
 			for _, n := range reservedPool(p) {
-				if !used[n] && r.Intn(4) == 0 {
-					c.Reserved = append(c.Reserved, n)
+				if r.Intn(4) == 0 {
+					add(n)
 				}
 			}
 		}
@@ -59,39 +122,58 @@ func decorate(r *rand.Rand, c *Case, calls []CallSpec, prefixes []string) {
 }
 
 // ExhaustiveC11: all assignments of 1..k calls to (plugin in {equal, hash}) x (name in the 3-name
-// alphabet of that plugin) x (type in C11Types), each under all four flag combinations.
+// alphabet of that plugin) x (type in C11Types), each under all four flag combinations (stream
+// "exhaustive"); and all assignments of 1..k calls of the equal plugin to (name) x (type) x (one or two
+// arguments: the curried form deriveEqual(p) next to deriveEqual(p, q)) that contain at least one
+// one-argument call (stream "exhaustive-arity": argument lists of which one is a proper prefix of another).
 func ExhaustiveC11(r *rand.Rand, k int) []*Case {
 	plugins := Plugins("derive", nil)
-	var opts []opt
+	pfx := map[string]string{"equal": "deriveEqual", "hash": "deriveHash"}
+	var out []*Case
+	enum := func(stream string, opts []opt, keep func([]opt) bool) {
+		var rec func(cur []opt)
+		rec = func(cur []opt) {
+			if len(cur) > 0 && keep(cur) {
+				calls := make([]CallSpec, len(cur))
+				for i, o := range cur {
+					calls[i] = CallSpec{Plugin: o.plugin, Name: alphabet(pfx[o.plugin])[o.name], Type: o.typ, Arity: o.arity}
+				}
+				c := &Case{ID: fmt.Sprintf("x%d", len(out)), Stream: stream, Types: C11Types, Plugins: plugins,
+					Variants: AllVariants}
+				decorate(r, c, calls, pfx)
+				out = append(out, c)
+			}
+			if len(cur) == k {
+				return
+			}
+			for _, o := range opts {
+				rec(append(append([]opt(nil), cur...), o))
+			}
+		}
+		rec(nil)
+	}
+	var opts, optsA []opt
 	for _, pl := range []string{"equal", "hash"} {
 		for n := 0; n < 3; n++ {
 			for t := 0; t < 3; t++ {
-				opts = append(opts, opt{pl, n, t})
+				opts = append(opts, opt{pl, n, t, arity(pl)})
 			}
 		}
 	}
-	pfx := map[string]string{"equal": "deriveEqual", "hash": "deriveHash"}
-	var out []*Case
-	var rec func(cur []opt)
-	rec = func(cur []opt) {
-		if len(cur) > 0 {
-			calls := make([]CallSpec, len(cur))
-			for i, o := range cur {
-				calls[i] = CallSpec{Plugin: o.plugin, Name: alphabet(pfx[o.plugin])[o.name], Type: o.typ}
-			}
-			c := &Case{ID: fmt.Sprintf("x%d", len(out)), Stream: "exhaustive", Types: C11Types, Plugins: plugins,
-				Variants: AllVariants}
-			decorate(r, c, calls, []string{"deriveEqual", "deriveHash"})
-			out = append(out, c)
-		}
-		if len(cur) == k {
-			return
-		}
-		for _, o := range opts {
-			rec(append(append([]opt(nil), cur...), o))
+	for n := 0; n < 3; n++ {
+		for t := 0; t < 3; t++ {
+			optsA = append(optsA, opt{"equal", n, t, 2}, opt{"equal", n, t, 1})
 		}
 	}
-	rec(nil)
+	enum("exhaustive", opts, func([]opt) bool { return true })
+	enum("exhaustive-arity", optsA, func(cur []opt) bool {
+		for _, o := range cur {
+			if o.arity == 1 {
+				return true
+			}
+		}
+		return false
+	})
 	return out
 }
 
@@ -109,13 +191,13 @@ func RandomC11(r *rand.Rand, n int) []*Case {
 		{Go: "MyInt", Wire: "(nm 0 MyInt int)", Decl: "type MyInt int"},
 	}
 	plugins := Plugins("derive", nil)
-	pfx := map[string]string{"equal": "deriveEqual", "hash": "deriveHash", "compare": "deriveCompare"}
+	pfx := map[string]string{"equal": "deriveEqual", "hash": "deriveHash", "compare": "deriveCompare", "tuple": "deriveTuple"}
 	var out []*Case
 	for i := 0; i < n; i++ {
 		nc := 5 + r.Intn(8)
 		var calls []CallSpec
 		for j := 0; j < nc; j++ {
-			pl := []string{"equal", "hash", "compare"}[r.Intn(3)]
+			pl := []string{"equal", "hash", "compare", "tuple", "equal"}[r.Intn(5)]
 			p := pfx[pl]
 			pool := []string{p, p + "_", p + "_A", p + "_Ab", p + "_1", p + "X", p + "_i", p + "_Ä"}
 			name := pool[r.Intn(len(pool))]
@@ -131,10 +213,15 @@ func RandomC11(r *rand.Rand, n int) []*Case {
 					}
 				}
 			}
-			calls = append(calls, CallSpec{Plugin: pl, Name: name, Type: t})
+			cl := Call(pl, name, t)
+			// one-argument forms: curried equal / compare, tuple of one (argument lists that are prefixes of others)
+			if pl != "hash" && r.Intn(3) == 0 {
+				cl.Arity = 1
+			}
+			calls = append(calls, cl)
 		}
 		c := &Case{ID: fmt.Sprintf("r%d", i), Stream: "random", Types: typs, Plugins: plugins, Variants: AllVariants}
-		decorate(r, c, calls, []string{"deriveEqual", "deriveHash", "deriveCompare"})
+		decorate(r, c, calls, pfx)
 		out = append(out, c)
 	}
 	return out
@@ -234,7 +321,7 @@ func RichC12(r *rand.Rand, n int) []*Case {
 			}
 			calls := make([]CallSpec, len(pcs))
 			for i, x := range pcs {
-				calls[i] = CallSpec{Plugin: x.plugin, Name: pre[x.plugin] + x.suffix, Type: x.typ}
+				calls[i] = Call(x.plugin, pre[x.plugin] + x.suffix, x.typ)
 			}
 			c := &Case{ID: id, Stream: "c12", Types: typs, Plugins: pls, GoderiveArgs: PrefixArgs(p, ov),
 				Variants: []Variant{{false, false}}, KeepDerived: true, Group: fmt.Sprintf("g%d", g), Rename: rename}
@@ -285,6 +372,99 @@ func RichC12(r *rand.Rand, n int) []*Case {
 		if len(ov) > 0 {
 			out = append(out, mk(id("both"), "both", "gen", ov))
 		}
+		// global prefix together with overrides whose VALUES contain the text "derive" or the global
+		// prefix: main.go substitutes "derive" only in the DEFAULT prefix; an override is taken verbatim
+		// (equal=deriveEqual keeps the plugin on its historical name under -prefix=gen).
+		def := map[string]string{}
+		for _, d := range DefaultPlugins {
+			def[d[0]] = d[1]
+		}
+		dov := map[string]string{ups[0]: def[ups[0]]}
+		if len(ups) > 1 {
+			dov[ups[1]] = "genQz"
+		}
+		if len(ups) > 2 {
+			dov[ups[2]] = "qderivez"
+		}
+		out = append(out, mk(id("both-derive"), "both-derive", "gen", dov))
+		out = append(out, mk(id("both-derive2"), "both-derive2", "deriveNew", map[string]string{ups[len(ups)-1]: def[ups[len(ups)-1]]}))
+	}
+	return out
+}
+
+// NestedC12: packages under the default prefixes and under overrides in which every prefix is a
+// proper prefix of the next (e.g. equal=gen, hash=genHash, sort=genS, set=genSet) with calls named
+// exactly by the prefix or prefix + a suffix that no longer prefix matches. Longest-prefix dispatch makes
+// the renamed run succeed with the same functions as the default run (same group => compared).
+func NestedC12(r *rand.Rand, n int) []*Case {
+	decl := "type S struct {\n\tA int\n\tB string\n}"
+	typs := []TypeSpec{
+		{Go: "*S", Wire: "(p (nm 0 S (st)))", Decl: decl},
+		{Go: "[]int", Wire: "(sl int)", Decl: decl},
+		{Go: "[]string", Wire: "(sl string)", Decl: decl},
+	}
+	typeFor := map[string][]int{"equal": {0, 1}, "hash": {0, 2}, "compare": {0, 1}, "clone": {0, 2}, "sort": {1, 2}, "set": {1, 2}, "unique": {1, 2}}
+	all := []string{"equal", "hash", "sort", "set", "compare", "clone", "unique"}
+	words := []string{"Hash", "S", "et", "Q", "Zed", "x", "H"}
+	def := map[string]string{}
+	for _, d := range DefaultPlugins {
+		def[d[0]] = d[1]
+	}
+	var out []*Case
+	for g := 0; g < n; g++ {
+		var pls []string
+		var chain []string
+		if g == 0 {
+			pls = []string{"equal", "hash", "sort", "set"}
+			chain = []string{"gen", "genHash", "genS", "genSet"}
+		} else {
+			perm := r.Perm(len(all))
+			k := 2 + r.Intn(4)
+			cur := []string{"gen", "n", "eq"}[r.Intn(3)]
+			for i := 0; i < k; i++ {
+				pls = append(pls, all[perm[i]])
+				chain = append(chain, cur)
+				cur += words[r.Intn(len(words))]
+			}
+			// the order in which the plugins get the chain is random: shuffle the assignment
+			r.Shuffle(len(chain), func(a, b int) { chain[a], chain[b] = chain[b], chain[a] })
+		}
+		nested := map[string]string{}
+		for i, p := range pls {
+			nested[p] = chain[i]
+		}
+		type pc struct {
+			plugin, suffix string
+			typ            int
+		}
+		var pcs []pc
+		for _, p := range pls {
+			ts := typeFor[p]
+			pcs = append(pcs, pc{p, "", ts[r.Intn(len(ts))]})
+			if r.Intn(2) == 0 {
+				t2 := ts[r.Intn(len(ts))]
+				if t2 != pcs[len(pcs)-1].typ {
+					pcs = append(pcs, pc{p, []string{"_", "2", "_b"}[r.Intn(3)], t2})
+				}
+			}
+		}
+		r.Shuffle(len(pcs), func(a, b int) { pcs[a], pcs[b] = pcs[b], pcs[a] })
+		mk := func(id, rename string, ov map[string]string) *Case {
+			pl := Plugins("derive", ov)
+			pre := map[string]string{}
+			for _, x := range pl {
+				pre[x.Name] = x.Prefix
+			}
+			calls := make([]CallSpec, len(pcs))
+			for i, x := range pcs {
+				calls[i] = Call(x.plugin, pre[x.plugin]+x.suffix, x.typ)
+			}
+			return &Case{ID: id, Stream: "c12", Types: typs, Plugins: pl, GoderiveArgs: PrefixArgs("derive", ov),
+				Variants: []Variant{{false, false}}, KeepDerived: true, Group: fmt.Sprintf("n%d", g), Rename: rename,
+				Files: []FileSpec{{Name: "a.go", Calls: calls}}}
+		}
+		out = append(out, mk(fmt.Sprintf("n%d-default", g), "default", nil))
+		out = append(out, mk(fmt.Sprintf("n%d-nested", g), "plugin-nested", nested))
 	}
 	return out
 }
@@ -302,7 +482,7 @@ func CaptureC12(r *rand.Rand, n int) []*Case {
 		for j := 0; j < nc; j++ {
 			// the wrapper shape (arity) is chosen independently of the handler the name selects
 			pl := []string{"equal", "hash", "compare"}[r.Intn(3)]
-			calls = append(calls, CallSpec{Plugin: pl, Name: names[r.Intn(len(names))], Type: r.Intn(3)})
+			calls = append(calls, Call(pl, names[r.Intn(len(names))], r.Intn(3)))
 		}
 		c := &Case{ID: fmt.Sprintf("cap%d", i), Stream: "capture", Types: C11Types, Plugins: pls,
 			GoderiveArgs: PrefixArgs("derive", ov), Variants: []Variant{{false, false}, {true, true}},
@@ -322,6 +502,6 @@ func F13Case() *Case {
 			{Go: "*S", Wire: "(p (nm 0 S (st)))", Decl: decl},
 			{Go: "*T1", Wire: "(p (nm 0 T1 (st int)))", Decl: decl},
 		},
-		Files:    []FileSpec{{Name: "a.go", Calls: []CallSpec{{Plugin: "hash", Name: "h", Type: 0}, {Plugin: "equal", Name: "h_T", Type: 1}}}},
+		Files:    []FileSpec{{Name: "a.go", Calls: []CallSpec{Call("hash", "h", 0), Call("equal", "h_T", 1)}}},
 		Variants: []Variant{{false, false}}, KeepDerived: true, OtherFile: "z_other.go"}
 }
